@@ -290,7 +290,7 @@ CODECS = [None, 'SNAPPY', 'GZIP', 'ZSTD', 'LZ4', 'BROTLI']
 def gen_knobs(rng):
     """Module-level tuning knobs for one run (swarm style)."""
     return {
-        'page': rng.choice((64, 256, 4096, None)),
+        'page': rng.choice((128, 256, 4096, None)),   # >= one 71-byte text value per page
         'v2': rng.random() < 0.4,
     }
 
@@ -321,7 +321,7 @@ def codec_ok(codec, knobs, has_cat):
     v2 = knobs.get('v2')
     if codec == 'LZ4' and v2 and has_cat:
         return False
-    if codec is None and v2 and knobs.get('page') in (64, 256):
+    if codec is None and v2 and knobs.get('page') in (64, 128, 256):
         return False
     return True
 
